@@ -402,6 +402,13 @@ func (e *c15Exec) step(op c15Op, rng *rand.Rand) (v *c15Viol) {
 			}
 			e.res.Add("reads_dead", 1)
 		}
+	case "reinit":
+		// the page object is initialised again as a new, empty page (what redo of a page allocation does on a recycled buffer):
+		// nothing of the former content may remain visible
+		e.tp.Init(types.PageID(c15PageID), types.PageID(c15PrevID), c15Log(), nil, e.txn, false)
+		e.tp.SetNextPageID(types.PageID(c15NextID))
+		e.slots, e.order = nil, nil
+		e.res.Add("reinitialisations_of_a_used_page", 1)
 	default:
 		panic("c15: unknown op " + op.Op)
 	}
@@ -621,7 +628,10 @@ func (e *c15Exec) gen(rng *rand.Rand, profile int, fillNo uint64) c15Op {
 			w["rollback"] = 0
 		}
 	}
-	names := []string{"ins", "upd", "mark", "apply", "rollback", "get", "dead"}
+	if len(e.slots) >= 3 {
+		w["reinit"] = 1
+	}
+	names := []string{"ins", "upd", "mark", "apply", "rollback", "get", "dead", "reinit"}
 	tot := 0
 	for _, n := range names {
 		tot += w[n]
@@ -708,6 +718,8 @@ func (e *c15Exec) gen(rng *rand.Rand, profile int, fillNo uint64) c15Op {
 		return c15Op{Op: "rollback", Slot: e.pickSlot(rng, c15Live, false)}
 	case "get":
 		return c15Op{Op: "get", Slot: e.pickSlot(rng, c15Live, false)}
+	case "reinit":
+		return c15Op{Op: "reinit", Slot: 0}
 	}
 	// "dead": update / mark / get aimed at an empty, marked or out-of-range row id: must change nothing
 	s := len(e.slots) + rng.Intn(3)
